@@ -277,7 +277,7 @@ Print Assumptions C16_case_equiv_closed_general.
 Theorem C16_bad_points :
   bad_pts = [215; 304; 7838] /\
   forallb (fun x => zmem x good_dom) (ascii_dom ++ pair_dom) = true.
-Proof. split; vm_compute; reflexivity. Qed.
+Proof. exact bad_points_ok. Qed.
 Print Assumptions C16_bad_points.
 
 (* the table is closed under SimpleFold and ToLower, every orbit in it is a cycle of at most four
